@@ -23,7 +23,7 @@ pub static DEF: CheckDef = CheckDef {
     run_case,
     rule: "topo: ALL straight-line DAG topologies over 2 leaves with 1..3 (thorough 1..4) nodes from {custom_neg, \
            custom_add, custom_mul} x tracked masks {TT,TU,UT}; rand: random DAGs of up to 40 user-defined nodes (neg, \
-           add, mul, fma, cube) over 1..3 same-shaped leaves; selfchain: chains of self-products x=x*x of depth 10..60 \
+           add, mul, fma, cube) over 1..3 same-shaped leaves; paused-clone: a second handle of a user node cloned while its tracking is paused, either or both handles switched on again and consumed at different depths; selfchain: chains of self-products x=x*x of depth 10..60 \
            (2^depth paths); diamond: nested diamonds; fanin: 2..16 products summed; builtin: random built-in programs \
            observed through the hook trace (coverage only). Per pass: every reachable operation node's closure is \
            invoked exactly once, after all its consumers, with seed == reference adjoint; unreachable nodes never; \
@@ -55,6 +55,7 @@ fn families(t: Tier) -> Vec<(&'static str, u64)> {
         ("rand", t.n(15_000, 800_000)),
         ("mixed", t.n(15_000, 800_000)),
         ("toggles", t.n(12_000, 600_000)),
+        ("paused-clone", t.n(2_000, 100_000)),
         ("selfchain", t.n(204, 2_040)),
         ("diamond", t.n(300, 6_000)),
         ("fanin", t.n(300, 6_000)),
@@ -147,6 +148,46 @@ fn gen(ctx: &Ctx, fam: &str, k: u64, r: &mut Rng) -> Program {
                     }
                 }
             }
+            p
+        }
+        "paused-clone" => {
+            // a second handle of a user node is cloned while the node's tracking is paused; afterwards either or both
+            // handles are switched on again and used next to each other, at different depths, in one graph
+            let n = r.range(1, 3);
+            let mut p = Program::default();
+            let ints = |r: &mut Rng| -> Vec<f64> { (0..n).map(|_| r.int(-2, 2)).collect() };
+            let va = ints(r);
+            let a = p.leaf(&[n], &va, true);
+            let vb = ints(r);
+            let b = p.leaf(&[n], &vb, !r.chance(1, 4));
+            let vk = ints(r);
+            let kc = p.leaf(&[n], &vk, r.chance(1, 3));
+            let u = p.op([OpKind::CMul, OpKind::CAdd, OpKind::CLibMul][r.below(3)].clone(), &[a, b]);
+            // v = u.clone() taken while u is paused
+            let v = p.op(OpKind::CloneH, &[u]);
+            if let Node::Op { pre, .. } = &mut p.nodes[v] {
+                pre.push((u, false));
+            }
+            let (u_on, v_on) = match r.below(4) {
+                0 => (true, false),
+                1 => (false, true),
+                _ => (true, true),
+            };
+            // first consumer, through u (or v)
+            let first_handle = if r.chance(1, 2) { u } else { v };
+            let w1 = p.op([OpKind::CNeg, OpKind::Neg, OpKind::CCube][r.below(3)].clone(), &[first_handle]);
+            if let Node::Op { pre, .. } = &mut p.nodes[w1] {
+                if u_on {
+                    pre.push((u, true));
+                }
+                if v_on {
+                    pre.push((v, true));
+                }
+            }
+            let other = if first_handle == u { v } else { u };
+            let w2 = p.op([OpKind::CMul, OpKind::Mul, OpKind::CAdd][r.below(3)].clone(), &[other, kc]);
+            let w3 = p.op(OpKind::Add, &[w2, first_handle]);
+            p.op([OpKind::CAdd, OpKind::Add][r.below(2)].clone(), &[w1, w3]);
             p
         }
         "selfchain" => {
